@@ -110,6 +110,7 @@ def prog(env, case):
                [('stationary', fi, None) for fi in range(len(fns))]
     if case.get('fixed'):
         alphabet += [('fixed', fi, None) for fi in range(len(fns))]
+        alphabet += [('oracle_at_stationary', fi, None) for fi in range(len(fns))]
     trace = []
     returned = []       # (function, point, g or None, f or None)
     stationary_decl = []
@@ -124,6 +125,25 @@ def prog(env, case):
             xs = fn.stationary_point()
             stationary_decl.append((fname, fn, xs))
             trace.append("%s.stationary_point()" % fname)
+            continue
+        if op == 'oracle_at_stationary':
+            # the function is queried again at its own declared stationary point (declared now if not yet)
+            mine = [t for t in stationary_decl if t[1] is fn]
+            if not mine:
+                xs = fn.stationary_point()
+                stationary_decl.append((fname, fn, xs))
+                trace.append("%s.stationary_point()" % fname)
+            else:
+                xs = mine[-1][2]
+            earlier = [t[1] for t in fn.list_of_points]
+            g, v = fn.oracle(xs)
+            returned.append((fname, fn, xs, g, v))
+            trace.append("%s.oracle(its stationary point)" % fname)
+            if fname in ('f1', 'f2') and not fn.reuse_gradient:
+                env.check(g.get_is_leaf() and not any(g is b for b in earlier),
+                          "[%s] a query of the non-differentiable %s at its declared stationary point returned an already "
+                          "recorded (sub)gradient (the null one) instead of a fresh one: 0 is only one of the admissible "
+                          "subgradients there" % (" ; ".join(trace), fname), signature="C07:subgradient-not-fresh:leaf")
             continue
         if op == 'fixed':
             xf, gf, vf_ = fn.fixed_point()
@@ -214,7 +234,9 @@ def prog(env, case):
     # ---- (C) stationary points -----------------------------------------------------------------------------------------
     for fname, fn, xs in stationary_decl:
         trips = [t for t in fn.list_of_points if t[0] is xs]
-        env.check(len(trips) >= 1 and all(provably_zero(env, list(pform(t[1]).values())) for t in trips),
+        # (a non-differentiable function queried again at its stationary point records further, non-zero subgradients:
+        #  the declaration itself must have recorded the null one)
+        env.check(len(trips) >= 1 and any(provably_zero(env, list(pform(t[1]).values())) for t in trips),
                   "[%s] declared stationary point of %s has a non-zero recorded gradient" % (tr, fname),
                   signature="C07:stationary-gradient:%s" % _kind(fname))
         env.check(any(t[0] is xs for t in fn.list_of_stationary_points),
@@ -238,10 +260,10 @@ def cases(tier):
         n_nest = 2 * 5 * 2 + 5
         for first in range(n_nest):
             cs.append(dict(id="sub2-first%02d" % first, length=2, forced=[first], nested=True, nested_variant=1))
-        for first in range(n_alpha + 3):
+        for first in range(n_alpha + 6):
             cs.append(dict(id="fix2-first%02d" % first, length=2, forced=[first], fixed=True))
     else:
-        for first in range(n_alpha + 3):
+        for first in range(n_alpha + 6):
             cs.append(dict(id="fix3-first%02d" % first, length=3, forced=[first], fixed=True))
         for first in range(n_alpha):
             for second in range(n_alpha + 1):
